@@ -717,6 +717,7 @@ func runC12(c *mon.Ctx) {
 	c.Floor("model_says_false", 100)
 	c12KeyResponses(c, w, r)
 	c12LargeBatch(c, c.Rand("large-batch"))
+	c12RealClientSeveralDocuments(c, c.Rand("real-client-docs"))
 	c12RealClient(c, c.Rand("real-client"))
 }
 
@@ -1282,6 +1283,83 @@ func c12RealClient(c *mon.Ctx, r *gen.Rand) {
 				})
 			}
 		}
+	}
+}
+
+// c12RealClientSeveralDocuments: a notary answer with several genuine documents, of servers whose key IDs differ (and
+// one with an old key), decoded by the library's own client: every document yields its own keys and nobody else's,
+// in whichever order the documents come.
+func c12RealClientSeveralDocuments(c *mon.Ctx, r *gen.Rand) {
+	if c.Shard != 0 {
+		return
+	}
+	notary := gen.NewIdentity(r, "notary.example", "ed25519:n1")
+	future := time.Now().UnixMilli() + 48*hourMs
+	type srv struct {
+		id  *gen.Identity
+		old *gen.Identity
+	}
+	servers := []srv{{id: gen.NewIdentity(r, "one.example", "ed25519:a1"), old: gen.NewIdentity(r, "one.example", "ed25519:a0")}, {id: gen.NewIdentity(r, "two.example", "ed25519:b7")}, {id: gen.NewIdentity(r, "three.example", "ed25519:c3")}}
+	docs := make([][]byte, len(servers))
+	want := map[keyReq][]byte{}
+	for i, sv := range servers {
+		o := ref.O("server_name", ref.S(sv.id.Server), "valid_until_ts", ref.I(future), "verify_keys", ref.O(sv.id.KeyID, ref.O("key", ref.S(spec.Base64Bytes(sv.id.Pub).Encode()))))
+		want[keyReq{ServerName: spec.ServerName(sv.id.Server), KeyID: gmsl.KeyID(sv.id.KeyID)}] = sv.id.Pub
+		if sv.old != nil {
+			o.Set("old_verify_keys", ref.O(sv.old.KeyID, ref.O("key", ref.S(spec.Base64Bytes(sv.old.Pub).Encode()), "expired_ts", ref.I(1234567))))
+			want[keyReq{ServerName: spec.ServerName(sv.id.Server), KeyID: gmsl.KeyID(sv.old.KeyID)}] = sv.old.Pub
+		}
+		doc := gen.Plain().Bytes(o)
+		var err error
+		if doc, err = gmsl.SignJSON(sv.id.Server, gmsl.KeyID(sv.id.KeyID), sv.id.Priv, doc); err != nil {
+			panic(err)
+		}
+		if doc, err = gmsl.SignJSON(notary.Server, gmsl.KeyID(notary.KeyID), notary.Priv, doc); err != nil {
+			panic(err)
+		}
+		docs[i] = doc
+	}
+	for _, order := range [][]int{{0, 1, 2}, {2, 1, 0}, {1, 0, 2}, {1, 2, 0}, {0, 1}, {1, 0}} {
+		name := fmt.Sprintf("real-client:perspective:several-genuine-documents:%v", order)
+		c.Case(name, map[string]any{"order": order}, func() {
+			c.Nontrivial(name)
+			var parts []string
+			expect := map[keyReq][]byte{}
+			reqs := map[keyReq]spec.Timestamp{}
+			for _, i := range order {
+				parts = append(parts, string(docs[i]))
+				for k, v := range want {
+					if string(k.ServerName) == servers[i].id.Server {
+						expect[k] = v
+					}
+				}
+				reqs[keyReq{ServerName: spec.ServerName(servers[i].id.Server), KeyID: gmsl.KeyID(servers[i].id.KeyID)}] = 0
+			}
+			rt := c12RoundTripper(func(req *http.Request) (*http.Response, error) {
+				body, status := []byte(`{"errcode":"M_NOT_FOUND"}`), 404
+				if strings.HasSuffix(req.URL.Path, "/key/v2/query") {
+					status, body = 200, []byte(`{"server_keys":[`+strings.Join(parts, ",")+`]}`)
+				}
+				return &http.Response{StatusCode: status, Header: http.Header{"Content-Type": []string{"application/json"}}, Body: io.NopCloser(bytes.NewReader(body)), Request: req}, nil
+			})
+			pf := &gmsl.PerspectiveKeyFetcher{PerspectiveServerName: "notary.example", PerspectiveServerKeys: map[gmsl.KeyID]ed25519.PublicKey{gmsl.KeyID(notary.KeyID): notary.Pub}, Client: fclient.NewClient(fclient.WithTransport(rt))}
+			res, err := pf.FetchKeys(context.Background(), reqs)
+			c.Count("real_client_fetches")
+			if err != nil {
+				c.Failf("realclient:drops-good-response:perspective:several-documents", "a notary answer of %d genuine, notarised documents is refused: %v", len(order), err)
+				return
+			}
+			for k, pub := range expect {
+				if got, ok := res[k]; !ok || string(got.Key) != string(pub) {
+					c.Failf("realclient:drops-good-response:perspective:several-documents", "the key %s/%s of a genuine document is missing from (or wrong in) the result", k.ServerName, k.KeyID)
+				}
+			}
+			for k := range res {
+				if _, ok := expect[k]; !ok {
+					c.Failf("realclient:key-under-a-name-the-document-does-not-carry:perspective:several-documents", "the result holds %s/%s, which no document of that server lists (another document's key has leaked into it)", k.ServerName, k.KeyID)
+				}
+			}
+		})
 	}
 }
 
